@@ -16,6 +16,7 @@ package shmipc
 
 import (
 	"bytes"
+	"context"
 	"encoding/binary"
 	"encoding/json"
 	"fmt"
@@ -430,13 +431,15 @@ func ecWire(jc *ecCase, client, server *Session) (*ecTarget, error) {
 	}
 	tg.epoch = ep
 	if jc.Lst {
-		tg.t.listener = &Listener{epoch: ep}
+		// a listener in the middle of a hot restart of this epoch which has notified this session (only then an ack counts)
+		tg.t.listener = &Listener{epoch: ep, state: hotRestartState}
+		tg.t.state = hotRestartState
 	}
 	if jc.Mgr {
 		// a manager in which a hot restart of this epoch is already in progress and this session id has already been
 		// handled: handleSessionManagerHotRestart then returns after its epoch / session-id checks (logged), without dialing
 		tg.t.sessionID = int(atomic.AddInt64(&ecCounter, 1)) + 1000
-		tg.t.manager = &SessionManager{state: hotRestartState, epoch: ep, reservePools: map[int]*streamPool{tg.t.sessionID: {}}}
+		tg.t.manager = &SessionManager{ctx: context.Background(), state: hotRestartState, epoch: ep, reservePools: map[int]*streamPool{tg.t.sessionID: {}}}
 		ecLog.register(tg.t)
 	}
 	tg.t.streamLock.Lock()
